@@ -53,6 +53,7 @@ func checkC09(c *Ctx) {
 		}
 	}
 	jobs = append(jobs, c09PipelineJobs(c)...)
+	jobs = append(jobs, c09SDTJobs(c)...)
 	c.BoundsText = append(c.BoundsText,
 		"termination, kernel level: items.GetItemSets on 45 pattern shapes 'x' OUTER(INNER(operand)) 'y' (OUTER, INNER in {repetition, option, group}; 5 operands incl. ones that match the empty string); termination = unwinding assertions with bound 300 on every loop; a violated unwinding assertion is replayed natively under 20 s / 4 GB and confirmed when the compiled harness does not finish",
 		"pipeline level: the real main() with symbolic flags on well-formed, conflict-free grammar files (lexer-only, nested nullable repetitions, corpus grammars, hostile spellings) and four ill-formed ones: terminates inside the unwinding bounds, exits early only on the ill-formed ones and then with a non-zero status, and WHENEVER it returns normally has called exactly the generators the configuration calls for (token, util; lexer unless -no_lexer; parser+errors iff there is a syntax part)",
@@ -151,5 +152,31 @@ func c09PipelineJobs(c *Ctx) []Job {
 			RequiredCovers:      req,
 		})
 	}
+	return jobs
+}
+
+// c09SDTJobs: the action text of an alternative reaches the generated code verbatim. Kernel on
+// frontend/token.(*Token).SDTVal with a symbolic action text (no placeholder in it, so that the
+// regexp-driven placeholder rewriting is the identity and is modelled as such).
+func c09SDTJobs(c *Ctx) []Job {
+	t := repoTarget("internal/frontend/token", "token", "fronttoken/c09sdt.go")
+	ident := func(e *engine.Engine, st *engine.St, args []engine.Value, call *ssa.CallCommon) (engine.Value, bool) {
+		return args[1], true
+	}
+	maxL := 4
+	if !c.Quick() {
+		maxL = 7
+	}
+	var jobs []Job
+	for l := 0; l <= maxL; l++ {
+		jobs = append(jobs, Job{
+			Name:           fmt.Sprintf("action text verbatim L=%d", l),
+			Target:         t,
+			Run:            SymRun{Harness: "VerifC09SDTVal", Params: map[string]int{"L": l}, LoopBound: 40, Prune: true, InitExtra: []string{"strings"}, Intrinsics: map[string]engine.Intrinsic{"(*regexp.Regexp).ReplaceAllStringFunc": ident}},
+			RequiredCovers: []string{"end"},
+			Bounds:         fmt.Sprintf("SDTVal on << + every ASCII text of %d bytes without '$', vertical tab and form feed + >>: the result is that text without white space at its ends", l),
+		})
+	}
+	c.BoundsText = append(c.BoundsText, fmt.Sprintf("action text: frontend/token.(*Token).SDTVal on every ASCII action text of 0..%d bytes without placeholders returns it verbatim up to surrounding white space (so an action that starts with '<' or ends with '>' is not mangled); (*regexp.Regexp).ReplaceAllStringFunc is modelled as the identity, which it is on texts without '$'", maxL))
 	return jobs
 }
